@@ -4,6 +4,7 @@
 //! list is deterministic (seed files x mutations + random inputs); one event per load.  `--start K` resumes after a
 //! case that killed the process (abort / hang), as in the term driver.
 use crate::util::{guard, panic_site, rng, Args, Out};
+use base64::{engine::general_purpose, Engine};
 use icy_engine::{AttributedChar, BitFont, Buffer, Palette, PaletteFormat, SauceData, SaveOptions, TextAttribute, TextPane, TheDrawFont};
 use rand::Rng;
 use serde_json::{json, Value};
@@ -130,11 +131,13 @@ pub fn seeds() -> Vec<Seed> {
     for (n, f) in [("hex", PaletteFormat::Hex), ("pal", PaletteFormat::Pal), ("gpl", PaletteFormat::Gpl), ("ice", PaletteFormat::Ice), ("txt", PaletteFormat::Txt)] {
         res.push(Seed { name: format!("palette-{n}"), ext: format!("pal:{n}"), bytes: pal.export_palette(&f) });
     }
+    // every variant of PaletteFormat is an entry point for arbitrary bytes, also the one without a writer
+    res.push(Seed { name: "palette-ase".into(), ext: "pal:ase".into(), bytes: b"ASEF\x00\x01\x00\x00\x00\x00\x00\x01\x00\x01\x00\x00\x00\x16\x00\x02\x00r\x00\x00RGB \x3f\x80\x00\x00\x00\x00\x00\x00\x00\x00\x00\x00\x00\x00".to_vec() });
     res
 }
 
 fn pal_format(n: &str) -> PaletteFormat {
-    match n { "hex" => PaletteFormat::Hex, "pal" => PaletteFormat::Pal, "gpl" => PaletteFormat::Gpl, "ice" => PaletteFormat::Ice, _ => PaletteFormat::Txt }
+    match n { "hex" => PaletteFormat::Hex, "pal" => PaletteFormat::Pal, "gpl" => PaletteFormat::Gpl, "ice" => PaletteFormat::Ice, "ase" => PaletteFormat::Ase, _ => PaletteFormat::Txt }
 }
 
 /// One load through the entry point that belongs to `ext`. Returns (outcome, detail).
@@ -258,6 +261,15 @@ pub fn cases(seed: u64, thorough: bool, faults: &[Value]) -> Vec<LCase> {
                     for i in 0..wd { b[off + i] = ((val >> (8 * i)) & 0xFF) as u8; }
                     if k == "set+trunc" { let at = f["at"].as_u64().unwrap_or(0) as usize; if at <= n { b.truncate(at); } else { continue; } }
                 }
+                "set2" => {
+                    for (o, w, v) in [("off", "width", "val"), ("off2", "width2", "val2")] {
+                        let off = f[o].as_u64().unwrap_or(0) as usize;
+                        let wd = f[w].as_u64().unwrap_or(1) as usize;
+                        let val = f[v].as_u64().unwrap_or(0);
+                        if off + wd > n { continue; }
+                        for i in 0..wd { b[off + i] = ((val >> (8 * i)) & 0xFF) as u8; }
+                    }
+                }
                 _ => continue,
             }
             push(&mut out, format!("tlc:{fi}:{}:{}", f["kind"].as_str().unwrap_or("?"), f["field"].as_str().unwrap_or("?")), b);
@@ -331,6 +343,35 @@ pub fn cases(seed: u64, thorough: bool, faults: &[Value]) -> Vec<LCase> {
         let c = crate::term::gen_case(seed, 7_000_000 + k, emus[i], k % 16 >= 8, false);
         out.push(LCase { ext: exts[i].to_string(), seed: "stream".into(), mutation: format!("stream{k}"), bytes: c.bytes.clone() });
         if k % 5 == 0 { out.push(LCase { ext: ["ice", "diz", "nfo", "zzz", ""][(k / 5 % 5) as usize].to_string(), seed: "stream".into(), mutation: format!("stream{k}"), bytes: c.bytes }); }
+    }
+    // state set up by one control string and used by a later one, in a FILE: a font loaded through the CTerm font DCS (payload
+    // classes: empty, one byte, 255 / 256 / 257 bytes, 8x1 .. 8x32 raw data, PSF1 / PSF2 headers with zero and extreme fields)
+    // followed by a sixel picture (placed and sized in cells of that font), by text and by a resize
+    {
+        let mut payloads: Vec<(String, Vec<u8>)> = vec![("empty".into(), vec![]), ("one".into(), vec![0xAA]), ("255".into(), vec![0x55; 255]), ("257".into(), vec![0x55; 257])];
+        for h in [1usize, 8, 14, 16, 32, 33] { payloads.push((format!("raw8x{h}"), vec![0xF0; 256 * h])); }
+        for (cs, h) in [(0u8, 0u8), (0, 16), (1, 0), (255, 255)] { let mut p = vec![0x36, 0x04, 0, cs]; p.extend(vec![0x0F; 256 * h as usize]); payloads.push((format!("psf1:cs={cs}:h={h}"), p)); }
+        for (len, cs, hh, ww) in [(0u32, 0u32, 0u32, 0u32), (256, 0, 0, 8), (0x7FFF_FFFF, 0, 16, 8), (0xFFFF_FFFF, 0, 16, 8), (1, 1, 0, 0), (1, 1, 1, 0xFFFF_FFFF), (2, 16, 0xFFFF_FFFF, 8), (256, 16, 16, 8)] {
+            let mut p = vec![0x72, 0xb5, 0x4a, 0x86];
+            for v in [0u32, 32, 0, len, cs, hh, ww] { p.extend(v.to_le_bytes()); }
+            p.extend(vec![0x3C; (len as u64 * cs as u64).min(8192) as usize]);
+            payloads.push((format!("psf2:len={len}:cs={cs}:h={hh}:w={ww}"), p));
+        }
+        let tails: [(&str, &[u8]); 4] = [("sixel", b"\x1bPq#1~~~-~~~\x1b\\"), ("text", b"AB\r\nCD"), ("sixel-raster", b"\x1bPq\"1;1;20;12#1!20~-!20~\x1b\\"), ("resize", b"\x1b[8;30;90tAB")];
+        for (pn, p) in &payloads {
+            for slot in [0u32, 1, 42] {
+                for (tn, t) in &tails {
+                    let mut b = format!("\x1bPCTerm:Font:{slot}:").into_bytes();
+                    b.extend(general_purpose::STANDARD.encode(p).as_bytes());
+                    b.extend(b"\x1b\\");
+                    if slot > 0 { b.extend(format!("\x1b[0;{slot} D").as_bytes()); }
+                    b.extend(*t);
+                    for e in ["ans", "avt", "pcb"] {
+                        out.push(LCase { ext: e.to_string(), seed: "font-dcs".into(), mutation: format!("font={pn}:slot={slot}:then={tn}"), bytes: b.clone() });
+                    }
+                }
+            }
+        }
     }
     // SAUCE tails: every kind of 128-byte tail that starts with "SAUCE", on short and long contents
     let mut rec = vec![0u8; 128];
